@@ -132,11 +132,13 @@ SCHEMA = {
             "leaf": P(opt(cfg("Leaf"))),
         },
     },
+    "GenLeaf": {"bases": [], "task": False, "lw": False, "params": {"w": P("int", default=0), "leafpath": P("path", generator="leaf.txt")}},
     "Gen": {
         "bases": [],
         "task": False,
         "lw": False,
         "params": {
+            "dsub": P(cfg("GenLeaf"), default={"$new": ["GenLeaf", {}]}),
             "x": P("int"),
             "out": P("path", generator="out.txt"),
             "aux": P("path", generator="aux.bin", ignored=True),
